@@ -299,6 +299,11 @@ def _as_iter(it, x):
 
 
 def b_sum(it, x, start=0):
+    if (is_z3(x) and z3.is_arith(x)) or (isinstance(x, (int, float)) and not isinstance(x, bool)):
+        # sum() of a number: TypeError ('float' object is not iterable) -- a definite failure on this path
+        if it.definedness and not it.caught_here("TypeError"):
+            it.oblige("defined", "TypeError@L%s" % getattr(getattr(it, "cur_node", None), "lineno", "?"), False, None, note="TypeError: sum() of a number (not iterable)")
+        raise _Raise("TypeError")
     if isinstance(x, GenV):
         gens = x.node.generators
         first = it.iterable(it.eval(gens[0].iter, x.env))
@@ -918,7 +923,8 @@ def np_maximum(it, a, b):
 
 
 def np_clip(it, a, lo, hi):
-    return np_minimum(it, np_maximum(it, a, lo), hi)
+    r = a if lo is None else np_maximum(it, a, lo)
+    return r if hi is None else np_minimum(it, r, hi)
 
 
 def np_all(it, a, axis=None):
@@ -1064,6 +1070,19 @@ def np_matmul(it, a, b):
     return it.table2(rows)
 
 
+def np_sqrt(it, x):
+    """sqrt as an uninterpreted function with its defining property on non-negative arguments: sqrt(x) >= 0 and sqrt(x)^2 == x"""
+    if is_arr(x):
+        return it.elementwise(lambda v: np_sqrt(it, v), x)
+    if not is_z3(x):
+        return math.sqrt(x)
+    f = z3.Function("sqrt", z3.RealSort(), z3.RealSort())
+    r = f(to_real(x))
+    it.facts.append(z3.Implies(to_real(x) >= 0, z3.And(r >= 0, r * r == to_real(x))))
+    it.assumptions_log.add("np.sqrt: uninterpreted with sqrt(x) >= 0 and sqrt(x)^2 == x for x >= 0")
+    return r
+
+
 def np_isscalar(it, x):
     return is_z3(x) or isinstance(x, (int, float))
 
@@ -1188,7 +1207,7 @@ def np_linspace(it, a, b, num=50):
 NP = {
     "zeros": np_zeros, "ones": np_ones, "empty": np_empty, "full": np_full, "zeros_like": np_zeros_like, "ones_like": np_ones_like, "array": np_array,
     "sum": np_sum, "divide": np_divide, "minimum": np_minimum, "maximum": np_maximum, "clip": np_clip, "all": np_all, "any": np_any, "cumsum": np_cumsum,
-    "prod": np_prod, "product": np_prod, "isfinite": np_isfinite, "isscalar": np_isscalar, "exp": np_exp, "argsort": np_argsort, "argmax": np_argmax, "isnan": np_isnan, "interp": np_interp, "matmul": np_matmul, "isclose": np_isclose,
+    "prod": np_prod, "product": np_prod, "isfinite": np_isfinite, "isscalar": np_isscalar, "exp": np_exp, "argsort": np_argsort, "argmax": np_argmax, "isnan": np_isnan, "interp": np_interp, "matmul": np_matmul, "sqrt": np_sqrt, "isclose": np_isclose,
     "less": np_less, "round": np_round, "linspace": np_linspace, "abs": lambda it, x: b_abs(it, x), "ceil": lambda it, x: to_real(b_ceil(it, x)) if is_z3(x) else float(math.ceil(x)),
 }
 
@@ -1297,6 +1316,15 @@ def arr_method(it, a, name, args, kwargs, node):
         raise Unsupported("method %s on %s with symbolic arguments" % (name, type(a).__name__))
     if name == "sum":
         return np_sum(it, a, *args, **kwargs)
+    if name == "mean" and not args and not kwargs and is_arr(a):
+        # arithmetic mean: sum / length (the length-0 case is a division by zero: NaN with a warning in numpy)
+        n = it.arr_len(a)
+        tot = np_sum(it, a)
+        if it.definedness and concrete_int(n) is None:
+            it.oblige("defined", "mean-of-empty@L%s" % getattr(node, "lineno", "?"), to_z3num(n) > 0, getattr(node, "lineno", None))
+        elif concrete_int(n) == 0:
+            raise Unsupported("mean of an empty array")
+        return it.binop(ast.Div(), tot, n if concrete_int(n) is None else float(concrete_int(n)))
     if name == "fill":
         v = args[0]
         if isinstance(v, float) and v != v:
